@@ -18,3 +18,35 @@ package security
 //@   loop 2 invariant keep.some: len(missing) > 0 ==> (exists j int :: 0 <= j && j < rangeindex && (forall k int :: 0 <= k && k < len(actual) ==> actual[k] != expected[j]))
 //@   modifies* nothing
 //@   frameprop C06
+
+//@ func (*BasicScheme).Validate
+//@   property C06
+//@   requires s != nil
+//@   ensures* accept: (forall j int :: 0 <= j && j < len(s.RequiredScopes) ==> (exists k int :: 0 <= k && k < len(scopes) && scopes[k] == s.RequiredScopes[j])) ==> result == nil
+//@   ensures* reject: result == nil ==> (forall j int :: 0 <= j && j < len(s.RequiredScopes) ==> (exists k int :: 0 <= k && k < len(scopes) && scopes[k] == s.RequiredScopes[j]))
+//@   modifies* nothing
+//@   frameprop C06
+
+//@ func (*APIKeyScheme).Validate
+//@   property C06
+//@   requires s != nil
+//@   ensures* accept: (forall j int :: 0 <= j && j < len(s.RequiredScopes) ==> (exists k int :: 0 <= k && k < len(scopes) && scopes[k] == s.RequiredScopes[j])) ==> result == nil
+//@   ensures* reject: result == nil ==> (forall j int :: 0 <= j && j < len(s.RequiredScopes) ==> (exists k int :: 0 <= k && k < len(scopes) && scopes[k] == s.RequiredScopes[j]))
+//@   modifies* nothing
+//@   frameprop C06
+
+//@ func (*OAuth2Scheme).Validate
+//@   property C06
+//@   requires s != nil
+//@   ensures* accept: (forall j int :: 0 <= j && j < len(s.RequiredScopes) ==> (exists k int :: 0 <= k && k < len(scopes) && scopes[k] == s.RequiredScopes[j])) ==> result == nil
+//@   ensures* reject: result == nil ==> (forall j int :: 0 <= j && j < len(s.RequiredScopes) ==> (exists k int :: 0 <= k && k < len(scopes) && scopes[k] == s.RequiredScopes[j]))
+//@   modifies* nothing
+//@   frameprop C06
+
+//@ func (*JWTScheme).Validate
+//@   property C06
+//@   requires s != nil
+//@   ensures* accept: (forall j int :: 0 <= j && j < len(s.RequiredScopes) ==> (exists k int :: 0 <= k && k < len(scopes) && scopes[k] == s.RequiredScopes[j])) ==> result == nil
+//@   ensures* reject: result == nil ==> (forall j int :: 0 <= j && j < len(s.RequiredScopes) ==> (exists k int :: 0 <= k && k < len(scopes) && scopes[k] == s.RequiredScopes[j]))
+//@   modifies* nothing
+//@   frameprop C06
